@@ -348,15 +348,19 @@ func (s *Server) shrinkRenameCommands(d *commandDetails) [][]string {
 // shrinkHookCommand returns the fence command of a hook for the rewritten log.
 // An area given as `GET key id` was resolved when the hook was set; the
 // object it named may have changed or gone since, and looking it up again
-// while loading would change the fence or lose the hook. It is written as
-// the geometry the hook holds.
+// while loading would change the fence or lose the hook. The three tokens are
+// replaced by the geometry they stood for (BUFFER and CLIPBY around them stay
+// and are applied again at load, as they were when the hook was set).
 func shrinkHookCommand(hook *Hook) []string {
 	args := hook.Message.Args
-	n := len(args)
-	if hook.Fence == nil || hook.Fence.obj == nil || hook.Fence.roam.on ||
-		n < 4 || strings.ToLower(args[n-3]) != "get" {
+	if hook.Fence == nil || hook.Fence.getObj == nil {
 		return args
 	}
-	out := append([]string{}, args[:n-3]...)
-	return append(out, "object", string(hook.Fence.obj.AppendJSON(nil)))
+	i := hook.Fence.getAt + 1 // args[0] is the command word
+	if i < 1 || i+3 > len(args) || strings.ToLower(args[i]) != "get" {
+		return args
+	}
+	out := append([]string{}, args[:i]...)
+	out = append(out, "object", string(hook.Fence.getObj.AppendJSON(nil)))
+	return append(out, args[i+3:]...)
 }
